@@ -14,10 +14,12 @@ from oracles import iso
 
 PROPERTY = "C04"
 LEVEL = "exploration"
-RULE = ("all object graphs of three families over the curated model (2 items x 2 holders with every one/many/back/peers "
+RULE = ("all object graphs of seven families over the curated model (2 items x 2 holders with every one/many/back/peers "
         "wiring incl. self loops, 2-cycles, repeated elements, subclass instances in base-typed fields; alternatively mapped "
         "vector in single fields, collections and cycles with a Type-valued carrier; alternatively mapped parent with a "
-        "normally mapped child) x every node as conversion root and all nodes with one shared state; "
+        "normally mapped child; several such children in one group; polylines whose mapping allocates mapped points; "
+        "many-to-many between an alternatively mapped team and normally mapped members in every order) x every node as "
+        "conversion root and all nodes with one shared state x {interpreter id(), identity of every dead object reused at once}; "
         "from_dao(to_dao(x)) must be isomorphic to x (classes, scalars type-exact, collection order, sharing) and one DAO "
         "per distinct object. non-trivial = graphs with sharing or a cycle")
 ASSUMPTIONS = ["the curated model reproduces each kind of mapping of the repository's data set; the data set itself contains "
